@@ -430,6 +430,11 @@ def check_symmetric(rec, fn, shape, centre, par, noise_seed, pairs, with_error, 
             return
     if fn == '2dg' and (mask is not None and (~mask).sum() < 7):
         nontriv = False
+    if kws.pop('half_peak', False):
+        # a guess exactly half a pixel below the centre pixel in x and y: "the pixel containing
+        # the position" rounds half away from zero, whatever the parity of the pixel index
+        kws['xpeak'] = centre[0] - 0.5
+        kws['ypeak'] = centre[1] - 0.5
     got = call(fn, data, mask, err, **kws)
     rec.case(('sym', tag), nontrivial=nontriv, contract='symmetric->centre')
     if not nontriv:
@@ -462,7 +467,8 @@ def part_symmetric(ctx):
             for pairs in (0, 2):
                 for fn in ('com', 'quadratic', '1dg', '2dg'):
                     if fn == 'quadratic':
-                        kwl = [{}, {'fit_boxsize': 3}, {'fit_boxsize': [3, 5]}, {'fit_boxsize': 7}]
+                        kwl = [{}, {'fit_boxsize': 3}, {'fit_boxsize': [3, 5]}, {'fit_boxsize': 7},
+                               {'half_peak': True}, {'half_peak': True, 'fit_boxsize': 3}]
                     else:
                         kwl = [{}]
                     for kw in kwl:
